@@ -156,6 +156,9 @@ MakeSOC(up, dn) == [up |-> up, dn |-> dn, hassoc |-> FALSE, rsS |-> {Z3},
                     D |-> [st \in {"00", "11", "01"} |-> FunR({Z3}, LAMBDA R : Mat(up.nw, LAMBDA m, n : <<GZ, GZ, GZ>>))],
                     P |-> Pauli, al |-> 0]
 SetSOC(soc, rsS, D, P, al) == [soc EXCEPT !.hassoc = TRUE, !.rsS = rsS, !.D = D, !.P = P, !.al = al]
+(* SystemSOC(system_up) with one spin channel (nspin = 1): system_down is system_up and set_soc_axis takes all four spin
+   blocks from dV_soc_wann_0_0; the 1,0 block conj(D00(-R))^T equals D00(R) because the diagonal blocks are Hermitian *)
+Nspin1D(D) == [st \in {"00", "11", "01"} |-> D["00"]]
 DBlock(soc, s, t, R, m, n) ==
    IF s = 0 /\ t = 0 THEN soc.D["00"][R][m][n]
    ELSE IF s = 1 /\ t = 1 THEN soc.D["11"][R][m][n]
@@ -363,4 +366,8 @@ HaldaneRU == {<<x, y, 0>> : x \in -1..1, y \in -1..1}
 HaldaneTbm(delta, hop1, t2) ==
    FoldLeft(LAMBDA m, h : TbmAddHop(m, h.t, h.i, h.j, h.R), TbmNew(2, HaldanePos, <<-delta, delta>>, HaldaneRU), HaldaneHops(hop1, t2))
 SameSystem(s, t) == s.nw = t.nw /\ s.cen = t.cen /\ SameOnAllR(s, t)
+(* systems are compared as functions R -> matrix continued by zero: which R-vectors are stored (with zero matrices) is a
+   representation, not part of any property *)
+SameXOnAllR(s, t) == \A R \in s.rs \cup t.rs : Ext(s.rs, s.X, s.nw, R) = Ext(t.rs, t.X, t.nw, R)
+SameCentresModCell(s, t) == \A x \in 1..s.nw : \A c \in 1..3 : (s.cen[x][c] - t.cen[x][c]) % CU = 0
 =============================================================================
